@@ -48,7 +48,7 @@ def run(rep, ctx):
                              r"mp::pre::(CopyLink|Many2ManyLink)::(PresolveNames|PostsolveNames|CopySrcDest|DistributeFromSrc2Dest|Distr)",
                              r"mp::pre::RangeCon2Slack::PresolveNamesEntry", r"mp::pre::ValueNode::(SetStr|CleanUpAndRealloc_Names|GetStr|GetVal|GetValVec)",
                              r"mp::pre::BasicStaticIndivEntryLink::GetStr", r"mp::pre::Copy", r"mp::pre::CopyRange",
-                             r"mp::pre::ValuePresolverImpl::CleanUpNameNodes"], repo=repo),
+                             r"mp::pre::ValuePresolverImpl::CleanUpNameNodes"], repo=repo, closure=1, closure_roots=r"RangeCon2Slack::PresolveNamesEntry$"),
             dict(unit=MU, fn=[r"mp::ModelManagerWithProblemBuilder::(ReadNames|SetObjNames)"], repo=repo, closure=1,
                  closure_roots=r"ModelManagerWithProblemBuilder::SetObjNames$"),
             dict(unit="src/nl-reader.cc", fn=[r"mp::NameProvider::.*", r"mp::internal::ReadNames"], repo=repo)]
@@ -263,7 +263,8 @@ def run(rep, ctx):
         t1.check(len(sv) == 1 and len(loops) == 2 and not [c for c in f.cfg.facts_at(sv[0]) if render(f.nodes[c[0]]).find("!=") < 0],
                  "distribute-to-every-target", short_loc(f.loc), "Distr assigns the source's name to every index of the target range")
     for f in all_of("mp::pre::RangeCon2Slack::PresolveNamesEntry"):
-        st = calls(f, name="SetStr")
+        # the SetStr calls made for an entry, directly or through a naming helper (arguments read at the call in this function)
+        st = [r_(c_) for a_, c_, r_, o_ in reach_calls(F, f, lambda x: x["k"] == "CXXMemberCallExpr" and (x.get("callee") or "").split("::")[-1] == "SetStr", depth=1)]
         lits = sorted({x.get("v") for c in st for x in walk(c) if x["k"] == "StringLiteral"})
         tg = sorted({render(call_args(c)[1]) for c in st})
         t1.check(len(st) == 2 and len(lits) == 2 and tg == ["CON_TARGET", "VAR_SLK"] and all("CON_SRC" in render(c) for c in st),
